@@ -26,7 +26,7 @@ func genPlanC20(def *PropDef, tier string, seed uint64, run int64) *Plan {
 		case 0:
 			// a backup followed by publish-only steps and repeated backups into the same target
 			tgt := int64(rng.Intn(2))
-			plan.Ops = append(plan.Ops, Op{K: "backup", A: int64(rng.Intn(2)), B: tgt})
+			plan.Ops = append(plan.Ops, Op{K: "backup", A: int64(rng.Pick(40, 40, 20)), B: tgt, C: int64(rng.Intn(4))})
 			for i, k := 0, rng.Range(1, 4); i < k; i++ {
 				for j, m := 0, rng.Range(1, 3); j < m; j++ {
 					switch rng.Pick(80, 8, 6, 6) {
@@ -40,10 +40,10 @@ func genPlanC20(def *PropDef, tier string, seed uint64, run int64) *Plan {
 						plan.Ops = append(plan.Ops, Op{K: "clock", A: rng.I64(0, 5000000)})
 					}
 				}
-				plan.Ops = append(plan.Ops, Op{K: "backup", A: int64(rng.Intn(2)), B: tgt})
+				plan.Ops = append(plan.Ops, Op{K: "backup", A: int64(rng.Pick(40, 40, 20)), B: tgt, C: int64(rng.Intn(4))})
 			}
 		case 1:
-			plan.Ops = append(plan.Ops, Op{K: "backup", A: int64(rng.Intn(2)), B: int64(rng.Intn(2))})
+			plan.Ops = append(plan.Ops, Op{K: "backup", A: int64(rng.Pick(40, 40, 20)), B: int64(rng.Intn(2)), C: int64(rng.Intn(4))})
 		default:
 			plan.Ops = append(plan.Ops, g.genOp())
 		}
@@ -75,6 +75,49 @@ func hooksC20() Hooks {
 		}
 		if r.L == nil {
 			return true
+		}
+		if op.A == 2 {
+			// Log.Backup through a read-only handle, as that handle's first call: the writer is
+			// closed, index files may get lost meanwhile (C bit 0: the newest, bit 1: all), and
+			// the writer comes back afterwards
+			wo := r.OOpts
+			if err := guard(func() error { return r.L.Close() }); err != nil {
+				r.L = nil
+				r.unexpected("Close", err)
+				return true
+			}
+			r.L = nil
+			if files := indexFiles(r.Dir); len(files) > 0 {
+				switch {
+				case op.C&2 != 0:
+					for _, f := range files {
+						_ = os.Remove(f)
+					}
+				case op.C&1 != 0:
+					_ = os.Remove(files[len(files)-1])
+				}
+			}
+			ro := wo
+			ro.Readonly, ro.Check, ro.Recover, ro.Eager = true, false, false, false
+			if err := r.open(ro); err != nil {
+				r.unexpected("Open(read-only)", err)
+				return true
+			}
+			r.probe("backup_via_readonly_handle")
+			defer func() {
+				l := r.L
+				r.L = nil
+				if l != nil {
+					_ = guard(func() error { return l.Close() })
+				}
+				if r.stopped() {
+					return
+				}
+				wo.Check, wo.Recover, wo.Eager = false, false, false
+				if err := r.open(wo); err != nil {
+					r.unexpected("Open(reopen)", err)
+				}
+			}()
 		}
 		key := fmt.Sprintf("clean:%d", op.B)
 		gen, _ := r.Ctx[fmt.Sprintf("gen:%d", op.B)].(int)
@@ -120,7 +163,7 @@ func hooksC20() Hooks {
 		}
 		src0 := snapDir(r.Dir)
 		var err error
-		if op.A == 0 {
+		if op.A == 0 || op.A == 2 {
 			if !existed {
 				if e := os.MkdirAll(tgt, 0o700); e != nil {
 					panic(infraErr{e})
@@ -139,7 +182,7 @@ func hooksC20() Hooks {
 		// also the first access to segments whose index file was lost
 		want := Observe(r.L, q)
 		src1 := snapDir(r.Dir)
-		if d := sourceChanged(src0, src1); d != "" {
+		if d := sourceChanged(src0, src1, r.M.Times, r.M.Keys); d != "" {
 			r.violate("source-changed", "Backup changed the source directory: %s", d)
 			return true
 		}
@@ -184,13 +227,24 @@ func hooksC20() Hooks {
 // sourceChanged compares the source before and after a backup: every file that existed must
 // be byte-identical; the only thing that may appear is the index file of a segment whose
 // index had been lost (it is derived data and gets rebuilt when the backup needs it).
-func sourceChanged(before, after dirSnap) string {
+func sourceChanged(before, after dirSnap, times, keys bool) string {
 	for n, b := range before {
 		a, ok := after[n]
 		if !ok {
 			return fmt.Sprintf("file %s disappeared", n)
 		}
 		if string(a) != string(b) {
+			if strings.HasSuffix(n, ".index") {
+				// derived data: the same items in the other index format are the same index (a
+				// handle may write a header-only index anew in the format of its options)
+				var base int64
+				fmt.Sscanf(n, "%d", &base)
+				_, ib, eb := refcodec.DecodeIndex(b, base, times, keys)
+				_, ia, ea := refcodec.DecodeIndex(a, base, times, keys)
+				if eb == nil && ea == nil && itemsDiff(ia, ib, true) == "" {
+					continue
+				}
+			}
 			return fmt.Sprintf("file %s changed (%d -> %d bytes)", n, len(b), len(a))
 		}
 	}
